@@ -111,6 +111,16 @@ func (s *c05Sys) Ops() []string {
 			f(i)
 		}
 	}
+	// requests carrying two session cookies of different users, in either order
+	cookiePairs := func(f func(pair string)) {
+		for i := range s.pool {
+			for j := range s.pool {
+				if i != j && s.pool[i].Sub != s.pool[j].Sub {
+					f(fmt.Sprintf("c%d+c%d", i, j))
+				}
+			}
+		}
+	}
 	switch s.family {
 	case "vip":
 		cookieIdx(func(i int) {
@@ -120,6 +130,11 @@ func (s *c05Sys) Ops() []string {
 			for j := range s.push {
 				ops = append(ops, fmt.Sprintf("pushStart(c%d,p%d)", i, j))
 				ops = append(ops, fmt.Sprintf("pushPoll(c%d,p%d)", i, j))
+			}
+		})
+		cookiePairs(func(pr string) {
+			for _, code := range []string{"A", "B"} {
+				ops = append(ops, fmt.Sprintf("vipOtp(%s,%s)", pr, code))
 			}
 		})
 		ops = append(ops, "deviceApprove("+c05A+")", "deviceApprove("+c05B+")")
@@ -133,6 +148,11 @@ func (s *c05Sys) Ops() []string {
 				ops = append(ops, fmt.Sprintf("totp(c%d,%s)", i, code))
 			}
 		})
+		cookiePairs(func(pr string) {
+			for _, code := range []string{"A", "B"} {
+				ops = append(ops, fmt.Sprintf("totp(%s,%s)", pr, code))
+			}
+		})
 		ops = append(ops, "tick(2s)", "tick(31s)", "tick(61s)")
 	case "u2f":
 		cookieIdx(func(i int) {
@@ -141,11 +161,21 @@ func (s *c05Sys) Ops() []string {
 				ops = append(ops, fmt.Sprintf("u2fFinish(c%d,%s)", i, dev))
 			}
 		})
+		cookiePairs(func(pr string) {
+			for _, dev := range []string{"A", "B"} {
+				ops = append(ops, fmt.Sprintf("u2fFinish(%s,%s)", pr, dev))
+			}
+		})
 		ops = append(ops, "tick(31s)", "sweep")
 	case "bootstrap":
 		cookieIdx(func(i int) {
 			for _, v := range []string{"A", "B", "bad"} {
 				ops = append(ops, fmt.Sprintf("bootstrapOtp(c%d,%s)", i, v))
+			}
+		})
+		cookiePairs(func(pr string) {
+			for _, v := range []string{"A", "B"} {
+				ops = append(ops, fmt.Sprintf("bootstrapOtp(%s,%s)", pr, v))
 			}
 		})
 		ops = append(ops, "tick(59m)", "tick(2m)")
@@ -359,13 +389,24 @@ func (s *c05Sys) Apply(op string) (string, string, string) {
 		return fmt.Sprintf("%d", resp.Code), "", ""
 	}
 	// adversary-driven requests: carried cookie
-	if len(args) == 0 || idx(args[0]) >= len(s.pool) {
+	if len(args) == 0 {
 		return "n/a", "", ""
 	}
-	carried := s.pool[idx(args[0])]
-	cookies := []*http.Cookie{{Name: authCookieName, Value: carried.Val}}
+	var carriedAll []c05Cookie
+	var cookies []*http.Cookie
+	for _, a := range strings.Split(args[0], "+") {
+		if idx(a) >= len(s.pool) {
+			return "n/a", "", ""
+		}
+		carriedAll = append(carriedAll, s.pool[idx(a)])
+		cookies = append(cookies, &http.Cookie{Name: authCookieName, Value: s.pool[idx(a)].Val})
+	}
+	carried := carriedAll[0] // single-cookie requests; for two cookies the judged one is chosen by the subject of the cookie the response sets
+	multi := len(carriedAll) > 1
 	var resp *vfResp
-	justified := false // is a gain of the family's bit justified by what was really proven for the carried cookie's user?
+	// justFor: is a gain of the family's bit by a session of user u justified by what was really proven?
+	var justFor func(u string) bool
+	var whyFor func(u string) string
 	famBit := 0
 	site := ""
 	why := ""
@@ -375,8 +416,8 @@ func (s *c05Sys) Apply(op string) (string, string, string) {
 		code := map[string]string{"A": "111111", "B": "222222", "bad": "999999"}[args[1]]
 		owner := map[string]string{"A": c05A, "B": c05B}[args[1]]
 		resp = s.w.Do(vfReq{Method: "POST", Path: vipAuthPath, Cookies: cookies, Form: url.Values{"OTP": {code}}}.Build())
-		justified = owner == carried.Sub
-		why = fmt.Sprintf("VIP code of %q presented with a cookie of %q", owner, carried.Sub)
+		justFor = func(u string) bool { return owner == u }
+		whyFor = func(u string) string { return fmt.Sprintf("VIP code of %q presented with a cookie of %q", owner, u) }
 	case "pushStart":
 		cookies = append(cookies, &http.Cookie{Name: vipTransactionCookieName, Value: s.push[idx(args[1])]})
 		resp = s.w.Do(vfReq{Method: "GET", Path: vipPushStartPath, Cookies: cookies}.Build())
@@ -399,8 +440,10 @@ func (s *c05Sys) Apply(op string) (string, string, string) {
 		// a push transaction is not one of the one-time values the statement
 		// names; its 120 s lifetime is observed (canonical state) but not judged
 		_ = expired
-		justified = ok && approved && owner == carried.Sub
-		why = fmt.Sprintf("push transaction started for %q (approved=%v) polled with a cookie of %q", owner, approved, carried.Sub)
+		justFor = func(u string) bool { return ok && approved && owner == u }
+		whyFor = func(u string) string {
+			return fmt.Sprintf("push transaction started for %q (approved=%v) polled with a cookie of %q", owner, approved, u)
+		}
 	case "totp":
 		famBit, site = AuthTypeTOTP, "validateUserTOTP"
 		code, owner, stale := s.totpCode(args[1])
@@ -409,11 +452,13 @@ func (s *c05Sys) Apply(op string) (string, string, string) {
 		}
 		resp = s.w.Do(vfReq{Method: "POST", Path: totpAuthPath, Cookies: cookies, Form: url.Values{"OTP": {code}}}.Build())
 		replayed := s.totpAccepted[owner+"|"+code]
-		justified = owner == carried.Sub && !stale && !replayed
-		why = fmt.Sprintf("TOTP code of %q (stale=%v, accepted-before=%v) presented with a cookie of %q", owner, stale, replayed, carried.Sub)
-		if owner == carried.Sub && replayed {
+		justFor = func(u string) bool { return owner == u && !stale && !replayed }
+		whyFor = func(u string) string {
+			return fmt.Sprintf("TOTP code of %q (stale=%v, accepted-before=%v) presented with a cookie of %q", owner, stale, replayed, u)
+		}
+		if !multi && owner == carried.Sub && replayed {
 			site += "|code-accepted-twice"
-		} else if owner == carried.Sub && stale {
+		} else if !multi && owner == carried.Sub && stale {
 			site += "|code-outside-window"
 		}
 		if v := c05SetCookie(resp); v != "" {
@@ -458,24 +503,35 @@ func (s *c05Sys) Apply(op string) (string, string, string) {
 		resp = s.w.Do(vfReq{Method: "POST", Path: u2fSignResponsePath, Cookies: cookies, RawBody: body, ContentType: "application/json"}.Build())
 		age := vclock.Now().Sub(ch.Issued)
 		// the server keeps one challenge per user: the newest issued for the carried cookie's user
-		var newestForUser *c05Challenge
-		for i := range s.chals {
-			if s.chals[i].ForUser == carried.Sub {
-				newestForUser = &s.chals[i]
+		newestFor := func(u string) *c05Challenge {
+			var n *c05Challenge
+			for i := range s.chals {
+				if s.chals[i].ForUser == u {
+					n = &s.chals[i]
+				}
 			}
+			return n
 		}
-		justified = fresh && devOwner == carried.Sub && newestForUser != nil && newestForUser.Chal == ch.Chal && !ch.Used && age <= 30*time.Second
-		why = fmt.Sprintf("assertion by the device of %q over a challenge issued for %q (age %v, used=%v, replayed=%v) presented with a cookie of %q", devOwner, ch.ForUser, age, ch.Used, !fresh, carried.Sub)
-		if fresh && devOwner == carried.Sub && newestForUser != nil && newestForUser.Chal == ch.Chal && !ch.Used && age > 30*time.Second {
+		newestForUser := newestFor(carried.Sub)
+		wasUsed := ch.Used
+		justFor = func(u string) bool {
+			n := newestFor(u)
+			return fresh && devOwner == u && n != nil && n.Chal == ch.Chal && !wasUsed && age <= 30*time.Second
+		}
+		whyFor = func(u string) string {
+			return fmt.Sprintf("assertion by the device of %q over a challenge issued for %q (age %v, used=%v, replayed=%v) presented with a cookie of %q", devOwner, ch.ForUser, age, wasUsed, !fresh, u)
+		}
+		if multi {
+		} else if fresh && devOwner == carried.Sub && newestForUser != nil && newestForUser.Chal == ch.Chal && !ch.Used && age > 30*time.Second {
 			site += "|challenge-older-than-30s"
 		} else if !fresh {
 			site += "|assertion-replayed"
 		}
 		if v := c05SetCookie(resp); v != "" {
-			if _, l, _ := c05Decode(s.w, v); l&AuthTypeU2F != 0 && l&AuthTypeU2F != carried.Level&AuthTypeU2F {
+			if su, l, _ := c05Decode(s.w, v); l&AuthTypeU2F != 0 && (multi || l&AuthTypeU2F != carried.Level&AuthTypeU2F) {
 				ch.Used = true
 				cp := sr
-				s.lastAssert[carried.Sub] = &cp
+				s.lastAssert[su] = &cp
 			}
 		}
 	case "bootstrapOtp":
@@ -485,11 +541,13 @@ func (s *c05Sys) Apply(op string) (string, string, string) {
 		expired := vclock.Now().Sub(time.Unix(vclock.EpochUnix, 0)) >= time.Hour
 		resp = s.w.Do(vfReq{Method: "POST", Path: bootstrapOtpAuthPath, Cookies: cookies, Form: url.Values{"OTP": {val}}}.Build())
 		used := s.bootUsed[owner]
-		justified = owner == carried.Sub && !expired && !used
-		why = fmt.Sprintf("bootstrap value of %q (expired=%v, used=%v) presented with a cookie of %q", owner, expired, used, carried.Sub)
-		if owner == carried.Sub && used {
+		justFor = func(u string) bool { return owner == u && !expired && !used }
+		whyFor = func(u string) string {
+			return fmt.Sprintf("bootstrap value of %q (expired=%v, used=%v) presented with a cookie of %q", owner, expired, used, u)
+		}
+		if !multi && owner == carried.Sub && used {
 			site += "|value-accepted-twice"
-		} else if owner == carried.Sub && expired {
+		} else if !multi && owner == carried.Sub && expired {
 			site += "|value-expired"
 		}
 		if v := c05SetCookie(resp); v != "" {
@@ -541,9 +599,28 @@ func (s *c05Sys) Apply(op string) (string, string, string) {
 		return "undecodable-cookie", "C05|undecodable-cookie|" + site, v
 	}
 	s.addCookie(&s.pool, v)
+	if multi {
+		site += "|two-session-cookies"
+		found := false
+		for _, cc := range carriedAll {
+			if cc.Sub == sub {
+				carried, found = cc, true
+			}
+		}
+		if !found {
+			return "upgrade", "C05|cookie-subject-changed|" + site, fmt.Sprintf("request carried cookies of %q and %q, response set one for %q", carriedAll[0].Sub, carriedAll[1].Sub, sub)
+		}
+	}
 	gained := lvl &^ carried.Level
 	if sub != carried.Sub {
 		return "upgrade", "C05|cookie-subject-changed|" + site, fmt.Sprintf("request carried a cookie of %q, response set one for %q", carried.Sub, sub)
+	}
+	justified, why := false, ""
+	if justFor != nil {
+		justified, why = justFor(sub), whyFor(sub)
+		if multi {
+			why += fmt.Sprintf(" [request carried the session cookies of %q then %q]", carriedAll[0].Sub, carriedAll[1].Sub)
+		}
 	}
 	if gained&^famBit != 0 {
 		return "upgrade", "C05|unrelated-factor-gained|" + site, fmt.Sprintf("level %#x -> %#x gains bits beyond %#x", carried.Level, lvl, famBit)
@@ -572,7 +649,7 @@ func init() {
 	vfRegister(&vfeng.Check{
 		ID:    "C05",
 		Level: "model_checking",
-		Rule:  "explicit-state BFS with canonical-state deduplication over histories of two users and three cookie jars on the real handlers, one search per second-factor family (Symantec VIP OTP+push against a stateful fake, local TOTP, U2F with real soft tokens, bootstrap OTP, CLI token); the adversary attaches any cookie/push cookie it ever obtained to any request; after every transition each Set-Cookie is decoded and every gained factor bit must be justified by ground truth (whose code / push / device / value it was, freshness, first use); canonical state = profiles' replay counters, cookie pools as (subject, level), push transactions (owner, approved, expired), challenges, rate-limit ages, clock",
+		Rule:  "explicit-state BFS with canonical-state deduplication over histories of two users and three cookie jars on the real handlers, one search per second-factor family (Symantec VIP OTP+push against a stateful fake, local TOTP, U2F with real soft tokens, bootstrap OTP, CLI token); the adversary attaches any cookie/push cookie it ever obtained to any request, or two session cookies of different users in either order; after every transition each Set-Cookie is decoded and every gained factor bit must be justified by ground truth (whose code / push / device / value it was, freshness, first use); canonical state = profiles' replay counters, cookie pools as (subject, level), push transactions (owner, approved, expired), challenges, rate-limit ages, clock",
 		Assumptions: []string{"the victim approves only pushes on her own device; the fake VIP lets only the owner approve", "the adversary holds at most one password session per user plus its upgrades (re-logins differ only in issue time)", "WebAuthn/FIDO2 and Okta flows are not driven (CBOR attestation and an Okta backend are not modelled)"},
 		Bounds: func(tier string) map[string]interface{} {
 			m := map[string]interface{}{}
